@@ -37,7 +37,8 @@ OnOrig(s, e, i) ==
   LET s0 == [s EXCEPT !.orig = e.orig, !.nsec = e.nsec]
       r == Ref(e.b)
   IN IF ~(r.ok /\ r.n = e.nsec) THEN Rep(s0, V("twin-unit-rejected-by-reference-decoder", s0, e, [n |-> r.n]))
-     ELSE RepIf(Len(e.orig) # e.nsec \/ e.errs # 0 \/ e.panic, s0, V("clean-unit-not-delivered", s0, e, [k |-> e.k, got |-> Len(e.orig), nsec |-> e.nsec]))
+     ELSE LET s1 == RepIf(Len(e.orig) # e.nsec \/ e.errs # 0 \/ e.panic, s0, V("clean-unit-not-delivered", s0, e, [k |-> e.k, got |-> Len(e.orig), nsec |-> e.nsec]))
+          IN RepIf(Len(e.orig) = e.nsec /\ e.data # e.want, s1, V("clean-unit-delivered-altered", s0, e, [k |-> e.k, nsec |-> e.nsec]))
 
 OnC(s, e) ==
   LET r == Ref(e.b)
